@@ -209,7 +209,10 @@ var c08 = Register(&Prop[ParseCase]{ID: "C08", Name: "parser-vs-declarations", G
 
 var symPool = []string{"+", "-", "*", "/", "%", "^", "<", ">", "=", "!", "&", "|", "~", "@", "#", "$", "**", "++", "<=", "=>", "<=>", "||", "&&", "!=", "==", "->", "..", "?.",
 	"and", "or", "not", "div", "mod", "在", "op_1"}
-var bpPool = []float64{0.5, 1, 1.5, 2, 2.5, 3, 4, 5, 6, 6.5, 7, 7.5, 8, 9, 9.5, 10, 11, 12, 12.5, 13, 13.5}
+var bpPool = []float64{0.5, 1, 1.5, 2, 2.5, 3, 4, 5, 6, 6.5, 7, 7.5, 8, 9, 9.5, 10, 11, 12, 12.5, 13, 13.5,
+	// powers far above the built-in ones, all exact in float32 (the engine's BP type): the spacing of float32 values
+	// grows with the magnitude, so "just below this power" must be computed in float32 steps, not with a fixed epsilon
+	14, 20, 32, 32.5, 33, 40, 64, 100, 1000, 4096.5, 1048576, 16777216}
 
 func genTable(t *rapid.T) []ref.Op {
 	if rapid.IntRange(0, 3).Draw(t, "builtin") == 0 {
@@ -753,7 +756,7 @@ func tableAlphabet(ops []ref.Op) []string {
 }
 
 func TestC08(t *testing.T) {
-	R.Rule = "operator tables of 1-8 operators over a symbol alphabet (symbolic 1-3 characters, identifier-like incl. non-ASCII; prefix / postfix / infix left / right / non-associative; a symbol may be prefix and one other role; binding powers 0.5..13.5 incl. fractional, equal and built-in-colliding ones) and the built-in table; expression trees to depth 4 over atoms, all operator kinds, ?:, calls, method calls, dynamic calls, members, subscripts and list / map / object literals, rendered fully parenthesised, with the minimal parentheses the reference needs, with redundant ones, or without any; random token soup; bracket literals mixing plain elements with key: value pairs (in a call, under a subscript, alone); exhaustive token sequences up to length 4 (quick) / 5 (thorough) over a 17-token alphabet for the built-in table and one shorter for three fixed custom tables; white space between tokens drawn from blanks and line breaks; one custom table in four is registered on a yae.Expr on top of the built-in table and parsed through Expr.Parse, half of those after the engine has already parsed something; one case in three first parses the same source with one or two sibling tables (powers differing only in the fraction, swapped / shifted powers, another fixity, reversed declaration order, one operator fewer) in the same process; oracle: reference precedence parser (accept / reject, tree, every node's span line and column), and round trip of the rendering; non-trivial = >= 2 different operators interacting, or a prefix / postfix next to an infix, or a rejected non-associative chain, or >= 3 tokens with >= 2 node kinds"
+	R.Rule = "operator tables of 1-8 operators over a symbol alphabet (symbolic 1-3 characters, identifier-like incl. non-ASCII; prefix / postfix / infix left / right / non-associative; a symbol may be prefix and one other role; binding powers 0.5..13.5 incl. fractional, equal and built-in-colliding ones, and powers far above the built-in ones: 14..2^24, exact in float32) and the built-in table; expression trees to depth 4 over atoms, all operator kinds, ?:, calls, method calls, dynamic calls, members, subscripts and list / map / object literals, rendered fully parenthesised, with the minimal parentheses the reference needs, with redundant ones, or without any; random token soup; bracket literals mixing plain elements with key: value pairs (in a call, under a subscript, alone); exhaustive token sequences up to length 4 (quick) / 5 (thorough) over a 17-token alphabet for the built-in table and one shorter for three fixed custom tables; white space between tokens drawn from blanks and line breaks; one custom table in four is registered on a yae.Expr on top of the built-in table and parsed through Expr.Parse, half of those after the engine has already parsed something; one case in three first parses the same source with one or two sibling tables (powers differing only in the fraction, swapped / shifted powers, another fixity, reversed declaration order, one operator fewer) in the same process; oracle: reference precedence parser (accept / reject, tree, every node's span line and column), and round trip of the rendering; non-trivial = >= 2 different operators interacting, or a prefix / postfix next to an infix, or a rejected non-associative chain, or >= 3 tokens with >= 2 node kinds"
 	R.Assume = []string{"ref.Parse is the reading of the declarations' meaning; tables where one symbol has two infix/postfix roles or re-declares . ? or punctuation are out of domain; member names that are not identifier-like and operators of equal power but different associativity are unspecified (counted, tree not compared)"}
 	reportKnown(t, "C08")
 	runRegress(t, "C08")
